@@ -151,6 +151,14 @@ CHECKS = {
         "the source falls in output pixel coordinates (1/1024 px) and TLC decides: axis-aligned in the requested CRS, every position inside the grid up to tol, pixel edges at the requested anchor fraction, source "
         "resolution for equal units, square fitted pixels, explicit resolution, requested shape with sub-pixel displacement, identity for the own CRS with default options, and the UTM hemisphere / zone rules.",
    ref="5/C11", note=TB + "PROJ is an environment table; UTM area of use comes from the pyproj database; the source's own CRS with non-default options is not constrained by the statement (skipped)"),
+ "C05": dict(
+   technique="TLA+ model of the COG layout rule and tile-table contract (CogLayout) checked by TLC; real save_cog_with_dask graphs executed under TLC-chosen task orders (TaskGraph) and the written files' tile tables validated by TLC; decode fidelity through GDAL/tifffile oracle booleans",
+   text="TLC checks the transcribed layout rule (tile rounding to 16, overview count by halving, padding to 2^n, exact halving per level, bijective flat tile index) for all shapes up to 70^2 (quick) / 150^2 x 7 "
+        "blocksize lists, and draws write configurations: image shapes incl. narrower than a tile and single row / column, YX / YXS / SYX, 1-4 samples, 7 dtypes, 4 compressions, nodata, source chunking, spill "
+        "threshold and writes-per-chunk. The real writer runs to a file sink under dask's default order, TLC-chosen linear extensions of the exported task graph and a thread pool; the harness reads every IFD with "
+        "tifffile and TLC decides on the logged tables: full resolution first then reduced-resolution pages, padding rule, exact halving, tile sizes multiples of 16, table sizes, every entry inside the data area, "
+        "no overlap, no gap from the end of the header to EOF, all overview tile data before full-resolution data; decode fidelity (rasterio and tifffile pixels, overviews, transform, CRS, nodata) enters as booleans.",
+   ref="5/C05", note=TB + "codec fidelity is an oracle (GDAL, tifffile), not modelled; compression='none' is not exercised: it never returns (tifffile loops on the empty placeholder tiles of an uncompressed image) - see DESIGN.md"),
 }
 
 NOT_YET = "check not built yet (work in progress); see DESIGN.md"
